@@ -1,3 +1,11 @@
+//! vf-eng-d: engine-level checks C06 (fees), C07 (intent replay), C08 (authorization), C49 (limits).
+
+pub mod util;
+pub mod c06;
+pub mod c07;
+pub mod c08;
+pub mod c49;
+
 pub fn checks() -> Vec<vf_core::Check> {
-    vec![]
+    vec![c06::check(), c07::check(), c08::check(), c49::check()]
 }
